@@ -56,3 +56,19 @@ func C02NilBelief(n *c02node, tip bool) int {
 
 // C02Spin never leaves at end of input (EOFLOOP control is exercised through gotree itself; this
 // one is for the progress rule): it pushes back what it read on every iteration.
+
+// C06StaleTip asks a node whether it is a tip after detaching it (STALE control).
+type c06node struct{ neigh []*c06node }
+
+func (n *c06node) Tip() bool { return len(n.neigh) == 1 }
+func (n *c06node) delNeighbor(o *c06node) {
+	for i, x := range n.neigh {
+		if x == o {
+			n.neigh = append(n.neigh[:i], n.neigh[i+1:]...)
+		}
+	}
+}
+func C06StaleTip(a, b *c06node) bool {
+	a.delNeighbor(b)
+	return !a.Tip()
+}
